@@ -202,11 +202,12 @@ def _getTextTypeByMediaType(media_type, log=None):
 
     media_type = media_type.strip().lower()
 
-    if media_type in xml_application_types or re.match(
+    # the first item of each list is a pattern, the others are names
+    if media_type in xml_application_types[1:] or re.match(
         xml_application_types[0], media_type, re.I | re.S | re.X
     ):
         return _XML_APPLICATION_TYPE
-    elif media_type in xml_text_types or re.match(
+    elif media_type in xml_text_types[1:] or re.match(
         xml_text_types[0], media_type, re.I | re.S | re.X
     ):
         return _XML_TEXT_TYPE
